@@ -33,7 +33,7 @@ def configs(tier):
     for spec in OR.SPECS:
         opts = spec.opts
         for i, o in enumerate(opts):
-            cfgs.append({'kind': 'inst', 'spec': spec.name, 'i': i, 'depth': 2 if thorough else 1,
+            cfgs.append({'kind': 'inst', 'spec': spec.name, 'i': i, 'depth': 3 if thorough else 2,
                          'npts': 5 if thorough else 4})
     for spec in OR.SPECS:
         for i in range(len(spec.opts) if thorough else min(2, len(spec.opts))):
@@ -709,7 +709,7 @@ def meta(tier):
                 'out-of-place call is held and must survive the next call; a non-finite result is '
                 're-executed under a second poison value (uninitialised memory)',
         'bounds': {'points_per_operator': 3 if tier == 'quick' else 5,
-                   'closure_depth': 1 if tier == 'quick' else 2,
+                   'closure_depth': 2 if tier == 'quick' else 3,
                    'prior_out': ['fresh (NaN-poisoned)', '1e30', 'result for another input'],
                    'layouts': ['C', 'F (ndim >= 2)']},
         'assumptions': ['inputs are a fixed deterministic point set per domain kind, not all '
